@@ -1337,7 +1337,11 @@ void generate(Program &prog, dsim::Config &cfg, dsim::Rng &pr, dsim::Rng &cr, in
       break;
   }
   size_t budget = 24;
-  if (scale() >= 1 && pr.chance(1, 3)) {  // thorough tier: a third of the programs are larger
+  if (scale() >= 2) {  // deep hunts (VERIF_SCALE=2): every program is large
+    max_thr += 2;
+    max_ops += 4;
+    budget = 48;
+  } else if (scale() >= 1 && pr.chance(1, 3)) {  // thorough tier: a third of the programs are larger
     max_thr += 1;
     max_ops += 3;
     budget = 36;
